@@ -148,14 +148,14 @@ PROPS["C17"] = {"units": [
 
 PROPS["C12"] = {"units": [
     plain_unit("regress", "udpl", "^TestRegressC12", overlay="full"),
-    rapid_unit("schedules", "udpl", "^TestC12Schedules$", 500, 16 * 3000, overlay="full"),
+    rapid_unit("schedules", "udpl", "^TestC12Schedules$", 500, 16 * 3000, overlay="full", crash_is_violation=True),
 ]}
 
 PROPS["C11"] = {"units": [
     plain_unit("regress", "udpl", "^TestRegressC11", overlay="full"),
     rapid_unit("sequential", "udpl", "^TestC11Sequential$", 600, 16 * 6000, overlay="full"),
     rapid_unit("concurrent", "udpl", "^TestC11Concurrent$", 150, 16 * 1500, overlay="full"),
-    rapid_unit("schedules", "udpl", "^TestC11Schedules$", 250, 16 * 2500, overlay="full", shrinktime="5s"),
+    rapid_unit("schedules", "udpl", "^TestC11Schedules$", 250, 16 * 2500, overlay="full", shrinktime="5s", crash_is_violation=True),
 ]}
 
 PROPS["C10"] = {"units": [
